@@ -100,6 +100,11 @@ def build_sandbox(root: Path, layout: str):
     else:
         st = root / 'storage'
         st.mkdir()
+    if layout == 'bare':
+        return st                  # nothing at all in the storage directory (its .gitignore was removed by hand)
+    if layout == 'bare-dangling-gitignore':
+        os.symlink('../outside/created_through_gitignore', st / '.gitignore')
+        return st
     (st / '.gitignore').write_text('*\n')
     if layout in ('keys', 'symlinks', 'via-symlink'):
         (st / 'k').mkdir()
@@ -192,6 +197,9 @@ def judge(op, raised, before, after, audit, st_real: str, root: str):
             out.append(('touched-nested', f'changed {p}, deeper than a file directly inside a key directory'))
         if len(rel) == 1 and before.get(p, after.get(p))[0] in ('f', 'l') and p in before:
             out.append(('touched-storage-level-file', f'changed {p}, which is not a key directory'))
+        if len(rel) == 1 and p not in before and after[p][0] in ('f', 'f?') and os.path.basename(p) != op[1]:
+            # (a file created under the very name the key names is the key's business)
+            out.append(('created-storage-level-file', f'created {p}: a file directly in the storage directory, outside every key directory'))
     if len(children) > 1:
         out.append(('several-keys-touched', f'one operation changed several children of the storage dir: {sorted(children)}'))
     if op[0] == 'exists' and changed:
@@ -498,6 +506,11 @@ def run(tier: str, seed: int) -> Result:
     for layout in LAYOUTS:
         for i in range(0, len(ops), chunk):
             items.append((layout, ops[i:i + chunk], OUT_TOKEN))
+    # a storage directory with nothing in it (not even its .gitignore), or whose .gitignore is a dangling link to outside
+    small_ops = [op for op in ops if all(('/' not in x and '\\' not in x) for x in op[1:3] if isinstance(x, str))]
+    for layout in ('bare', 'bare-dangling-gitignore'):
+        for i in range(0, len(small_ops), chunk):
+            items.append((layout, small_ops[i:i + chunk], OUT_TOKEN))
     total = accepted = 0
     viols = []
     for n, na, res in pmap(_work, items):
